@@ -1,6 +1,6 @@
 #!/bin/bash
 # records the non-discharged obligations of the unchanged tree per property (for seedcheck.sh)
-for p in "$@"; do /verif/bin/jdlint -property $p -root /repo -json | python3 -c "
+for p in "$@"; do ${JDLINT:-/verif/bin/jdlint} -property $p -root /repo -json | python3 -c "
 import sys,json
 for l in sys.stdin:
     if l.startswith('{'):
